@@ -112,13 +112,15 @@ def run(chk):
     chk.proofs(extra_targets=["Model/ObjectiveRun.vo", "Proofs/OptimalCheck.vo"])
     binp = vf.build_harness("c02")
     quick = chk.tier == "quick"
-    streams = [("opt", 420 if quick else 6000), ("real", 150 if quick else 2500)]
+    streams = [("opt", 420 if quick else 15000), ("real", 150 if quick else 6000)]
     if chk.replay:
         # a replay file names its stream in the case description
         try:
             fam = json.load(open(chk.replay)).get("stream") or json.load(open(chk.replay)).get("case", {}).get("stream")
         except Exception:  # noqa
             fam = None
+        if fam and fam.startswith("corpus_"):
+            fam = fam[len("corpus_"):]
         if fam in ("opt", "real"):
             streams = [(s, n) for (s, n) in streams if s == fam]
         else:
